@@ -19,6 +19,7 @@ func buildProperties() []Property {
 			Decides:    "agreement of the writer's and the reader's tables and exactness of the number paths: every escape the writer can emit is accepted by the lexer class, matched by the reader's pattern and mapped back to the same character; quote, backslash and control characters always trigger escaping; floats are written with the shortest round-tripping representation and read by one correctly rounding conversion; write_term/3 and read_term/3 use the VM's one operator table. The write options are extended copy-on-write: a map reached through an options struct received by value is never updated in place.",
 			NotDecided: "bracketing/spacing correctness for operator contexts - the heart of the round trip - which depends on pairs (context operator, operand) over all tables.",
 			Rules: []RuleDef{
+				{"R-ANON-VAR", 2, ruleAnonVar},
 				{"R-MAP-COW", 4, ruleMapCOW},
 				{"R-ESCAPE-TABLES", 12, ruleEscapeTables},
 				{"R-FLOAT-TEXT", 2, ruleFloatText},
@@ -31,6 +32,7 @@ func buildProperties() []Property {
 			Decides:    "the clause 'text measured in characters, not bytes': in the atom-processing builtins (resolved from the registration calls) a string obtained from an atom is measured and indexed only through []rune or range offsets; its byte length feeds only capacities and zero tests; it is sliced only at offsets produced by ranging over the same string. Every built-in inspects the dynamic type of an argument only after resolving it (mode discrimination is made on the resolved term); no cutset-taking strings function is given computed text.",
 			NotDecided: "completeness and exactly-once enumeration in every mode - behavioural.",
 			Rules: []RuleDef{
+				{"R-TAIL-CDR", 1, ruleTailCdr},
 				{"R-TRIM-CUTSET", 1, ruleTrimCutset},
 				{"R-RESOLVE-ALL", 130, ruleResolveAll("C16")},
 				{"R-TEXT-RUNE", 8, ruleTextRune},
@@ -42,6 +44,7 @@ func buildProperties() []Property {
 			Decides:    "the cursor bookkeeping (buffer, position, end-of-stream, last rune size) is touched only by the stream's own methods; each method that moves the underlying reader/writer moves `position` in the same direction by the amount transferred, on the success edge; peek_char/peek_byte install the matching un-read on every path after their read and get_* never un-read; read_term/3 un-reads exactly once on the stream its parser was built on. Byte-unit operations on the underlying reader run only under streamType == binary and rune-unit operations only under text. A peek gives back what it read before the continuation can run and only when the read succeeded; read_term/3 gives back its look-ahead rune before the continuation runs and does not give back a delivered end of file; the lexer's window never reads its source again after the source has failed; un-reading a look-ahead that found the end takes the stream back to at-the-end.",
 			NotDecided: "that mixed operation sequences deliver consecutive data, the end-of-stream state machine, that one un-read is enough after read_term (would need the ring's contents, not its depth).",
 			Rules: []RuleDef{
+				{"R-EOS-AT-EMPTY", 2, ruleEosAtEmpty},
 				{"R-STREAM-OWNER", 8, ruleStreamOwner},
 				{"R-POSITION-PAIRING", 6, rulePositionPairing},
 				{"R-PEEK-UNREAD", 5, rulePeekUnread},
@@ -88,7 +91,7 @@ func buildProperties() []Property {
 				{"R-CLOSE-ONCE", 2, only("R-CLOSE-ONCE", ruleSolutionsTypestate)},
 				{"R-NO-SEND-AFTER-CLOSE", 1, only("R-NO-SEND-AFTER-CLOSE", ruleSolutionsTypestate)},
 				{"R-NO-SEND-WHEN-EXHAUSTED", 1, only("R-NO-SEND-WHEN-EXHAUSTED", ruleSolutionsTypestate)},
-				{"R-GOROUTINE-RELEASE", 3, only("R-GOROUTINE-RELEASE", ruleSolutionsTypestate)},
+				{"R-GOROUTINE-RELEASE", 2, only("R-GOROUTINE-RELEASE", ruleSolutionsTypestate)},
 				{"R-CLOSE-STOPS", 1, ruleCloseStops},
 			},
 		},
@@ -97,6 +100,7 @@ func buildProperties() []Property {
 			Decides:    "every narrowing conversion of an answer value in Scan is guarded by an exactness/range test with an error edge (sizes from the analysed build, thorough tier repeats with 32-bit int); placeholder arguments never flow into a reader, lexer or parser constructor (they enter the grammar only as finished terms); a term is returned only when the argument queue is empty and the queue is indexed only when non-empty. The destination of each element conversion into a slice is computed per element inside the loop.",
 			NotDecided: "that termOf(v) equals the literal denoting v under every double_quotes setting.",
 			Rules: []RuleDef{
+				{"R-INT-CONVERT", 1, ruleIntConvert},
 				{"R-SCAN-FRESH-DEST", 1, ruleScanFreshDest},
 				{"R-NARROWING", 6, ruleNarrowing},
 				{"R-PLACEHOLDER-TAINT", 2, rulePlaceholderTaint},
@@ -137,6 +141,7 @@ func buildProperties() []Property {
 			Decides:    "op/3 validates everything before it mutates anything (no error exit is reachable after a mutation); the operator table is written only from code reachable from op/3 and the parser/VM initialisers; write_term/3 and every term-reading parser use the VM's one table. Every iteration of the commit loop of op/3 reaches define (a skip is allowed only across a whole-operator comparison); op/3 inspects its arguments after resolution.",
 			NotDecided: "that current_op/3 enumerates exactly the ISO table after every history (class exclusion, priority-0 removal are value-level).",
 			Rules: []RuleDef{
+				{"R-COMMA-FIXED", 1, ruleCommaFixed},
 				{"R-RESOLVE-ALL", 8, ruleResolveAll("C18")},
 				{"R-OP-ATOMIC", 2, ruleOpAtomic},
 				{"R-OP-DEFINES-ALL", 1, ruleOpDefinesAll},
@@ -192,6 +197,7 @@ func buildProperties() []Property {
 			Decides:    "the ball is instantiated and copied at throw time (throw/1 raises only Exceptions whose term is renamedCopy(ball, env) of its own arguments); the catcher is unified and Recovery called under the environment catch/3 was called with, so all later bindings are undone (with R-ENV-IMMUT); variable sharing inside the ball is kept. The closures of catch/3 and throw/1 write no captured Go variable. Inside the protected thunk of catch/3 the continuation is only invoked under a nested marker frame whose handler declines every error and tells the handler of catch/3 to let that error pass: a catch/3 whose goal has exited does not intercept later errors.",
 			NotDecided: "which catch frame is selected - in particular that a catch/3 whose Goal has exited no longer intercepts (observation O1: it does on this tree; a property of the runtime promise stack).",
 			Rules: []RuleDef{
+				{"R-UNWIND-POPPED", 1, ruleUnwindPopped},
 				{"R-CATCH-SCOPE", 3, ruleCatchScope},
 				{"R-CONTROL-STATELESS", 12, ruleControlStateless},
 				{"R-BALL-COPY", 6, ruleBallCopy},
@@ -206,6 +212,7 @@ func buildProperties() []Property {
 			Decides:    "every collected instance is a renamed copy of the template taken under that solution's environment; after the nested search findall/3 and \\+/1 continue with their own outer environment (no goal binding is left behind, with R-ENV-IMMUT); copies keep variable sharing. The whole collection machinery inspects terms only after resolution.",
 			NotDecided: "free-variable computation, witness variance, partition into groups, solution order.",
 			Rules: []RuleDef{
+				{"R-GROUP-ALL", 1, ruleGroupAll},
 				{"R-RESOLVE-ALL", 18, ruleResolveAll("C11")},
 				{"R-COPY-ON-COLLECT", 1, ruleCopyOnCollect},
 				{"R-OUTER-ENV", 2, ruleOuterEnv},
@@ -219,6 +226,7 @@ func buildProperties() []Property {
 			Decides:    "every nested trampoline runs under the caller's context (no fresh Background context around a goal, no captured context inside a thunk); every cycle of the trampoline passes through a non-blocking poll of ctx.Done() and cancellation is returned as ctx.Err(). ensure_loaded/1 un-marks the file on every error exit after marking it (a cancelled load can be repeated).",
 			NotDecided: "the delay bound (Go-level loops between polls are bounded by term size, not by a constant), and that the interpreter stays usable afterwards.",
 			Rules: []RuleDef{
+				{"R-DONE-REPORTS", 1, ruleDoneReports},
 				{"R-FORCE-CTX", 8, ruleForceCtx},
 				{"R-POLL-IN-LOOP", 3, rulePollInLoop},
 				{"R-MARK-ROLLBACK", 1, ruleMarkRollback},
@@ -229,6 +237,7 @@ func buildProperties() []Property {
 			Decides:    "a failed unification leaves no binding (environments are persistent: every Env store targets a node private to the writer); unify_with_occurs_check applies the check at every depth and before every bind; atomic terms are compared with a total non-panicking equality; every slice/string encoding of a list reports './2 through the Compound interface. The occurs check recurses into the referent of a bound variable and into every argument; the dynamic type of a term is inspected only after resolution; functor-name comparisons are paired with arity.",
 			NotDecided: "most-generality, symmetry, idempotence, and that Arg(n) of the four list encodings denotes the same abstract argument (algebraic laws over all term pairs).",
 			Rules: []RuleDef{
+				{"R-TAIL-CDR", 1, ruleTailCdr},
 				{"R-FUNCTOR-ARITY", 35, ruleFunctorArity},
 				{"R-RESOLVE-ALL", 24, ruleResolveAll("C02")},
 				{"R-ENV-IMMUT", 9, ruleEnvImmut},
@@ -260,6 +269,7 @@ func buildProperties() []Property {
 			Decides:    "panic classes visible in code shape (zero divisor, negative shift, uncomparable interface comparison, missing table row) Every computed index into a fixed-size array is proven in range (enumeration, range loop, branch facts, or ring cursor by interval interpretation). The parser's next() moves its token window by one slot on every return path, failures included, so the unconditional backup() of its callers is symmetric (no endless re-parsing at the end of the input).",
 			NotDecided: "termination on arbitrary text, slice bounds in general, memory exhaustion",
 			Rules: []RuleDef{
+				{"R-MARK-ROLLBACK", 2, ruleMarkRollback},
 				{"R-NEXT-ADVANCES", 2, ruleNextAdvances},
 				{"R-ARRAY-INDEX", 20, ruleArrayIndex},
 				{"R-DIV-GUARD", 3, ruleDivGuard},
